@@ -67,6 +67,9 @@ func (eval *Evaluator) Evaluate(ct *rlwe.Ciphertext, testPolyWithSlotIndex map[i
 	ringQBR := eval.paramsBR.RingQ().AtLevel(brk.LevelQ())
 	ringQLWE := eval.paramsLWE.RingQ().AtLevel(ct.Level())
 
+	// A previous call with keys below the maximum level leaves the accumulator at the level of those keys.
+	acc.Resize(1, eval.paramsBR.MaxLevel())
+
 	if ct.IsNTT {
 		ringQLWE.INTT(ct.Value[0], acc.Value[0])
 		ringQLWE.INTT(ct.Value[1], acc.Value[1])
@@ -95,6 +98,9 @@ func (eval *Evaluator) Evaluate(ct *rlwe.Ciphertext, testPolyWithSlotIndex map[i
 	eval.modSwitchRLWETo2NLvl(ct.Level(), acc.Value[0], bRLWEMod2N, false)
 
 	res = make(map[int]*rlwe.Ciphertext)
+
+	// The rotations are computed, and returned, at the level of the keys.
+	acc.Resize(1, brk.LevelQ())
 
 	var prevIndex int
 	for index := 0; index < NLWE; index++ {
